@@ -27,6 +27,14 @@ fn unhex(s: &str) -> Vec<u8> {
 
 fn ustr(s: &str) -> String { String::from_utf8(unhex(s)).expect("oracle arg must be utf-8") }
 
+/// an application whose handler always reports an error (replay of the "application fails" branch)
+pub struct ErrApp {}
+impl crate::application::Application for ErrApp {
+    fn execute(&self, _request: &Request, _connection: &crate::server::ConnectionInfo) -> Result<crate::response::Response, String> {
+        Err("application error".to_string())
+    }
+}
+
 pub struct MockStream {
     pub input: Vec<u8>,
     pub pos: usize,
@@ -103,9 +111,10 @@ fn dispatch(cmd: &str, a: &[&str]) -> Result<Vec<String>, String> {
             let input = unhex(a[0]);
             let size: i64 = a[1].parse().unwrap();
             let mut script = vec![];
-            let mut read_err = false; let mut flush_err = false;
+            let mut read_err = false; let mut flush_err = false; let mut err_app = false;
             for t in &a[2..] {
                 if *t == "E" { script.push(usize::MAX - 1); }
+                else if *t == "A" { err_app = true; }
                 else if *t == "r" { read_err = true; }
                 else if *t == "f" { flush_err = true; }
                 else { script.push(t.parse::<usize>().unwrap()); }
@@ -118,8 +127,12 @@ fn dispatch(cmd: &str, a: &[&str]) -> Result<Vec<String>, String> {
                     server: crate::server::Address { ip: "127.0.0.1".to_string(), port: 7878 },
                     request_size: size,
                 };
-                let app = crate::app::App {};
-                result = crate::server::Server::process(&mut stream, conn, app);
+                if err_app {
+                    result = crate::server::Server::process(&mut stream, conn, ErrApp {});
+                } else {
+                    let app = crate::app::App {};
+                    result = crate::server::Server::process(&mut stream, conn, app);
+                }
             } else {
                 std::env::set_var("RWS_CONFIG_REQUEST_ALLOCATION_SIZE_IN_BYTES", size.to_string());
                 let peer = std::net::SocketAddr::new(std::net::IpAddr::V4(std::net::Ipv4Addr::new(127, 0, 0, 1)), 50000);
@@ -131,6 +144,41 @@ fn dispatch(cmd: &str, a: &[&str]) -> Result<Vec<String>, String> {
             out.push(hex(format!("{}", stream.writes.len()).as_bytes()));
             out.push(hex(format!("{}", stream.flushes).as_bytes()));
             Ok(out)
+        }
+        "request_parse" => {
+            match crate::request::Request::parse(&unhex(a[0])) {
+                Ok(r) => {
+                    let mut out = vec![hex(r.method.as_bytes()), hex(r.request_uri.as_bytes()), hex(r.http_version.as_bytes()), hex(&r.body)];
+                    out.extend(headers_out(&r.headers));
+                    Ok(out)
+                }
+                Err(e) => Err(e)
+            }
+        }
+        "range_parse" => {
+            // path, file length (decimal), Range header value -> per part: start end size body
+            let len: u64 = a[1].parse().unwrap();
+            match crate::range::Range::parse_content_range(&ustr(a[0]), len, &ustr(a[2])) {
+                Ok(list) => {
+                    let mut out = vec![];
+                    for cr in list { out.push(hex(cr.range.start.to_string().as_bytes())); out.push(hex(cr.range.end.to_string().as_bytes())); out.push(hex(cr.size.as_bytes())); out.push(hex(&cr.body)); }
+                    Ok(out)
+                }
+                Err(e) => Err(format!("{} {}", e.status_code_reason_phrase.status_code, e.message))
+            }
+        }
+        "request_generate" => {
+            let req = mk_request(&[a[0], a[1], a[2], a[3], a[4]].iter().chain(a[5..].iter()).cloned().collect::<Vec<&str>>());
+            Ok(vec![hex(&req.generate())])
+        }
+        "log_sizes" => {
+            let mut crs = vec![];
+            for s in a { crs.push(crate::range::ContentRange { unit: "bytes".to_string(), range: crate::range::Range { start: 0, end: 1 }, size: ustr(s), body: vec![b'a'], content_type: "text/plain".to_string() }); }
+            let resp = crate::response::Response { http_version: "HTTP/1.1".to_string(), status_code: 206, reason_phrase: "Partial Content".to_string(), headers: vec![], content_range_list: crs };
+            let req = Request { method: "GET".to_string(), request_uri: "/a".to_string(), http_version: "HTTP/1.1".to_string(), headers: vec![], body: vec![] };
+            let peer = std::net::SocketAddr::new(std::net::IpAddr::V4(std::net::Ipv4Addr::new(127, 0, 0, 1)), 50000);
+            let t = std::thread::Builder::new().name("0".to_string()).spawn(move || crate::log::Log::request_response(&req, &resp, &peer)).unwrap();
+            match t.join() { Ok(s) => Ok(vec![hex(s.as_bytes())]), Err(_) => { panic!("Log::request_response panicked") } }
         }
         "b64_encode" => {
             match crate::core::base64::Base64::encode(&unhex(a[0])) { Ok(t) => Ok(vec![hex(t.as_bytes())]), Err(e) => Err(e) }
